@@ -291,6 +291,11 @@ def get_reserved_bits_size(op: Reserve, preprocessor_data: PreprocessorData) -> 
                 f'(memory-width aligned) value: '
                 f'{hex(reserved_bits_size)}. In {op.code_position}.',
             )
+        if reserved_bits_size < 0:
+            macro_resolve_error(
+                preprocessor_data.curr_tree,
+                f"reserve ops can't have a negative size: {hex(reserved_bits_size)}. In {op.code_position}.",
+            )
         return reserved_bits_size
     except FlipJumpExprException as e:
         macro_resolve_error(preprocessor_data.curr_tree, f'reserve failed. In {op.code_position}.', orig_exception=e)
